@@ -1,10 +1,268 @@
-(* Props/C05.v — an interval's length is the exact elapsed time between its endpoints. *)
+(* Props/C05.v — an interval's length is the exact elapsed time between its endpoints.
+   Only theorem statements; every proof is `exact <lemma>` (Proofs/C05Facts.v).
+   Model: Model/IntervalLen.v (hand model of Interval.__new__/__init__, DateTime/Date.__sub__/__rsub__/diff, Duration(seconds=float); equal to /repo on every
+   run by correspondence, both backends).  Zones: Spec/Zone.v; `inst z W f` = W - 10^6 * utcoffset(W, fold) is the UTC instant of a wall value; `ep_inst a` is that
+   instant for an aware endpoint and the wall value itself for a naive one / a date.  Floats: Spec/TdFloat.v (SpecFloat binary64).
+   An endpoint carries the identity of its tzinfo object (`e_obj`, 0 = None): `same_tz a b` is Python's `a.tzinfo is b.tzinfo`; NO theorem below assumes
+   anything about how the two zones / objects are related (same object, same name through another object, different zones are all covered).
+   Float premises (explicit hypotheses of the *_partial theorems, NOT proved, validated on every run):
+     float_roundtrip_exact_below_2_33 : timedelta(seconds=td.total_seconds()) == td for |td| < 2^33 s
+     float_roundtrip_within_64        : the same round trip is within 64 us for |td| <= 3652061 days
+     float_split_exact_on_D9 (C09), float_div_trunc_exact 60 / 3600 : int(td.total_seconds() / unit) is the truncated quotient for |td| < 2^33 s. *)
 From Coq Require Import ZArith List Bool.
-From PV Require Import Lib.PyBase Spec.Zone Spec.TdFloat Model.Duration Model.IntervalLen Proofs.C05Facts.
+From Coq Require Import Floats.SpecFloat.
+From PV Require Import Lib.PyBase Spec.Cal Spec.Zone Spec.TdFloat Model.Duration Model.TzConvert Model.IntervalLen.
+From PV Require Import Proofs.ZoneFacts Proofs.C09Facts Proofs.C05Facts.
 Import ListNotations.
 Open Scope Z_scope.
 
+(* ---- the integer heart: what Interval.__new__ hands to total_seconds() *)
+(* for ANY two aware endpoints (any tables, any folds, any wall values, shared tzinfo object or not): the difference of the UTC instants *)
 Theorem interval_native_delta : forall a b D, e_dt a = true -> aware a = true -> aware b = true ->
   native_delta a b = Ok D -> D = ep_inst b - ep_inst a.
 Proof. exact native_delta_aware. Qed.
 Print Assumptions interval_native_delta.
+
+(* endpoints that are the renderings of two instants in any two well-formed zones: exactly the time elapsed between those instants *)
+Theorem interval_elapsed_between_rendered_instants : forall za zb Ua Ub na nb oa ob ca cb fxa fxb,
+  wf_zone za = true -> wf_zone zb = true -> oa <> 0 -> ob <> 0 ->
+  wall_in_range Ua = true -> wall_in_range Ub = true ->
+  native_delta (mkep true na oa ca fxa za (fst (render za Ua)) (snd (render za Ua)))
+               (mkep true nb ob cb fxb zb (fst (render zb Ub)) (snd (render zb Ub))) = Ok (Ub - Ua).
+Proof. exact native_delta_rendered. Qed.
+Print Assumptions interval_elapsed_between_rendered_instants.
+
+(* the only failure: OverflowError, exactly when both share the tzinfo object and an instant leaves years 1..9999 *)
+Theorem native_delta_total : forall a b,
+  (forall e, native_delta a b = Raise e ->
+     e = E_OverflowError /\ e_dt a = true /\ same_tz a b = true /\ aware a = true /\ aware b = true /\
+     (wall_in_range (ep_inst a) = false \/ wall_in_range (ep_inst b) = false)) /\
+  ((e_dt a = true -> same_tz a b = true -> aware a = true -> wall_in_range (ep_inst a) = true /\ wall_in_range (ep_inst b) = true) ->
+   exists D, native_delta a b = Ok D).
+Proof. intros a b. split; [exact (native_delta_raises a b) | exact (native_delta_ok a b)]. Qed.
+Print Assumptions native_delta_total.
+
+(* known finding edge-overflow-same-tzinfo: 0001-01-01T00:30+01:00 -> 0001-01-02T00:00+01:00 raises; with two distinct objects it is 84600 s *)
+Theorem edge_overflow_refuted :
+  wall_in_range (e_W edge_a) = true /\ wall_in_range (e_W edge_b) = true /\ ep_inst edge_b - ep_inst edge_a = 84600 * MEG /\
+  interval_new_delta edge_a edge_b false = Raise E_OverflowError /\
+  interval_new_delta edge_a (mkep true false 11 10 true (fixed_zone 3600) (86400 * MEG) false) false = Ok (84600 * MEG).
+Proof. exact edge_overflow_witness. Qed.
+Print Assumptions edge_overflow_refuted.
+
+(* naive pairs and Date pairs: the wall-clock difference *)
+Theorem naive_and_date_delta : forall a b,
+  (e_dt a = false \/ (aware a = false /\ aware b = false)) -> native_delta a b = Ok (e_W b - e_W a).
+Proof. exact native_delta_naive_date. Qed.
+Print Assumptions naive_and_date_delta.
+
+(* swapping the endpoints negates (all kinds of endpoints) *)
+Theorem swap_negates : forall a b D, interval_new_delta a b false = Ok D -> interval_new_delta b a false = Ok (- D).
+Proof. exact interval_delta_swap. Qed.
+Print Assumptions swap_negates.
+
+(* ---- absolute=True / diff()'s default / abs() *)
+Theorem abs_is_magnitude_partial : forall a b D, e_dt a = true -> e_dt b = true -> aware a = true -> aware b = true ->
+  (same_tz a b = true -> (e_W a >? e_W b) = (ep_inst a >? ep_inst b)) ->
+  interval_new_delta a b true = Ok D -> D = Z.abs (ep_inst b - ep_inst a).
+Proof. exact interval_abs_aware. Qed.
+Print Assumptions abs_is_magnitude_partial.
+
+Theorem abs_is_magnitude_naive_date : forall a b D, e_dt a = e_dt b -> (e_dt a = false \/ (aware a = false /\ aware b = false)) ->
+  interval_new_delta a b true = Ok D -> D = Z.abs (e_W b - e_W a).
+Proof. exact interval_abs_naive_date. Qed.
+Print Assumptions abs_is_magnitude_naive_date.
+
+(* known finding same-tzinfo-wall-order: in the complementary region the result is MINUS the magnitude *)
+Theorem abs_is_negated_in_region : forall a b D, e_dt a = true -> e_dt b = true -> aware a = true -> aware b = true ->
+  same_tz a b = true -> (e_W a >? e_W b) <> (ep_inst a >? ep_inst b) ->
+  interval_new_delta a b true = Ok D -> D = - Z.abs (ep_inst b - ep_inst a).
+Proof. exact interval_abs_region. Qed.
+Print Assumptions abs_is_negated_in_region.
+
+(* Europe/Paris 2013-10-27: a = 02:30 (second occurrence), b = 02:45 (first occurrence, 45 min earlier): both orders give -2700 s with absolute=True *)
+Theorem abs_is_magnitude_refuted :
+  wf2_zone paris13 = true /\ wall_repeated paris13 (W_0230 / MEG) /\ wall_repeated paris13 (W_0245 / MEG) /\
+  ep_inst par_b - ep_inst par_a = - (2700 * MEG) /\
+  interval_new_delta par_a par_b true = Ok (- (2700 * MEG)) /\
+  interval_new_delta par_b par_a true = Ok (- (2700 * MEG)).
+Proof. exact abs_refuted_witness. Qed.
+Print Assumptions abs_is_magnitude_refuted.
+
+Theorem abs_is_magnitude_refuted_interval :
+  exists i, interval_make par_a par_b true = Ok i /\ d_N (i_dur i) = - (2700 * MEG) /\ dur_in_minutes (i_dur i) = Ok (-45).
+Proof. exact abs_refuted_interval. Qed.
+Print Assumptions abs_is_magnitude_refuted_interval.
+
+(* the region needs two different offsets and walls closer than the offsets differ: it lives inside offset changes *)
+Theorem wall_order_region_is_small : forall z Wa fa Wb fb,
+  let oa := off_local z (Wa / MEG) fa in let ob := off_local z (Wb / MEG) fb in
+  (Wa >? Wb) <> (inst z Wa fa >? inst z Wb fb) ->
+  oa <> ob /\ Z.abs (Wa - Wb) <= MEG * Z.abs (oa - ob).
+Proof. exact order_region_small. Qed.
+Print Assumptions wall_order_region_is_small.
+
+Theorem invert_flag_partial : forall a b ab i, e_native a = false -> e_native b = false ->
+  e_dt a = true -> aware a = true -> aware b = true ->
+  (same_tz a b = true -> (e_W a >? e_W b) = (ep_inst a >? ep_inst b)) ->
+  interval_make a b ab = Ok i -> i_invert i = (ep_inst a >? ep_inst b).
+Proof. exact invert_flag. Qed.
+Print Assumptions invert_flag_partial.
+
+Theorem invert_flag_refuted :
+  exists i j, interval_make par_a par_b false = Ok i /\ i_invert i = false /\ d_N (i_dur i) = - (2700 * MEG)
+           /\ interval_make par_b par_a false = Ok j /\ i_invert j = true /\ d_N (i_dur j) = 2700 * MEG.
+Proof. exact invert_refuted_witness. Qed.
+Print Assumptions invert_flag_refuted.
+
+(* ---- the Duration: its native value is the float round trip of EXACTLY the elapsed microseconds (no premise) *)
+Theorem interval_length_is_roundtrip_of_elapsed : forall a b i, e_dt a = true -> e_dt b = true -> aware a = true -> aware b = true ->
+  interval_make a b false = Ok i ->
+  td_of_float_seconds (total_seconds (ep_inst b - ep_inst a)) = Ok (d_N (i_dur i)) /\ d_abs (i_dur i) = false.
+Proof. exact interval_length_roundtrip. Qed.
+Print Assumptions interval_length_is_roundtrip_of_elapsed.
+
+Theorem interval_length_is_roundtrip_naive_date : forall a b i,
+  (e_dt a = false \/ (aware a = false /\ aware b = false)) -> interval_make a b false = Ok i ->
+  td_of_float_seconds (total_seconds (e_W b - e_W a)) = Ok (d_N (i_dur i)).
+Proof. exact interval_length_roundtrip_naive_date. Qed.
+Print Assumptions interval_length_is_roundtrip_naive_date.
+
+(* ---- exact below 2^33 s, within 64 us beyond, truncation: from the float premises *)
+Theorem interval_length_exact_partial : float_roundtrip_exact_below_2_33 ->
+  forall a b i, e_dt a = true -> e_dt b = true -> aware a = true -> aware b = true ->
+  interval_make a b false = Ok i -> Z.abs (ep_inst b - ep_inst a) < B33 ->
+  d_N (i_dur i) = ep_inst b - ep_inst a.
+Proof. exact length_exact_partial. Qed.
+Print Assumptions interval_length_exact_partial.
+
+Theorem interval_length_exact_abs_partial : float_roundtrip_exact_below_2_33 ->
+  forall a b i, e_dt a = true -> e_dt b = true -> aware a = true -> aware b = true ->
+  (same_tz a b = true -> (e_W a >? e_W b) = (ep_inst a >? ep_inst b)) ->
+  interval_make a b true = Ok i -> Z.abs (ep_inst b - ep_inst a) < B33 ->
+  d_N (i_dur i) = Z.abs (ep_inst b - ep_inst a).
+Proof. exact length_exact_abs_partial. Qed.
+Print Assumptions interval_length_exact_abs_partial.
+
+Theorem interval_length_exact_naive_date_partial : float_roundtrip_exact_below_2_33 ->
+  forall a b i, (e_dt a = false \/ (aware a = false /\ aware b = false)) ->
+  interval_make a b false = Ok i -> Z.abs (e_W b - e_W a) < B33 -> d_N (i_dur i) = e_W b - e_W a.
+Proof. exact length_exact_naive_date_partial. Qed.
+Print Assumptions interval_length_exact_naive_date_partial.
+
+Theorem interval_length_64_partial : float_roundtrip_within_64 ->
+  forall a b i, e_dt a = true -> e_dt b = true -> aware a = true -> aware b = true ->
+  interval_make a b false = Ok i -> Z.abs (ep_inst b - ep_inst a) <= SPAN_MAX ->
+  Z.abs (d_N (i_dur i) - (ep_inst b - ep_inst a)) <= 64.
+Proof. exact length_64_partial. Qed.
+Print Assumptions interval_length_64_partial.
+
+Theorem swap_negates_length_partial : float_roundtrip_exact_below_2_33 ->
+  forall a b i j, e_dt a = true -> e_dt b = true -> aware a = true -> aware b = true ->
+  interval_make a b false = Ok i -> interval_make b a false = Ok j -> Z.abs (ep_inst b - ep_inst a) < B33 ->
+  d_N (i_dur j) = - d_N (i_dur i).
+Proof. exact C05Facts.swap_negates_length_partial. Qed.
+Print Assumptions swap_negates_length_partial.
+
+(* in_seconds / in_minutes / in_hours: the elapsed time truncated toward zero (Z.quot; see quot_truncates_toward_zero) *)
+Theorem in_seconds_minutes_hours_trunc_partial :
+  float_roundtrip_exact_below_2_33 -> float_split_exact_on_D9 -> float_div_trunc_exact 60 -> float_div_trunc_exact 3600 ->
+  forall a b i, e_dt a = true -> e_dt b = true -> aware a = true -> aware b = true ->
+  interval_make a b false = Ok i -> Z.abs (ep_inst b - ep_inst a) < B33 ->
+  let D := ep_inst b - ep_inst a in
+  dur_in_seconds (i_dur i) = Ok (Z.quot D 1000000) /\
+  dur_in_minutes (i_dur i) = Ok (Z.quot D 60000000) /\
+  dur_in_hours (i_dur i) = Ok (Z.quot D 3600000000).
+Proof. exact in_units_trunc_partial. Qed.
+Print Assumptions in_seconds_minutes_hours_trunc_partial.
+
+Theorem quot_truncates_toward_zero : forall D u, 0 < u ->
+  exists r, D = Z.quot D u * u + r /\ Z.abs r < u /\ (0 <= D -> 0 <= r) /\ (D <= 0 -> r <= 0).
+Proof. exact quot_is_trunc. Qed.
+Print Assumptions quot_truncates_toward_zero.
+
+(* ---- subtracting a native datetime *)
+(* a stdlib aware operand that denotes a valid local time keeps its fields and its instant through DateTime.instance *)
+Theorem native_operand_keeps_instant : forall o o', e_native o = true -> e_dt o = true -> aware o = true -> e_canon o <> 0 ->
+  (e_fixed o = true -> exists off, e_zone o = fixed_zone off) ->
+  ~ wall_skipped (e_zone o) (sec (e_W o)) ->
+  normalise_operand o = Ok o' ->
+  e_native o' = false /\ e_dt o' = true /\ aware o' = true /\ e_obj o' = e_canon o /\ e_zone o' = e_zone o /\
+  e_W o' = e_W o /\ ep_inst o' = ep_inst o.
+Proof. exact normalise_native_valid. Qed.
+Print Assumptions native_operand_keeps_instant.
+
+(* pendulum - native and native - pendulum: the round trip of exactly the difference of the instants as CPython reads the native value *)
+Theorem sub_native_same_length : forall self o i, e_dt self = true -> aware self = true ->
+  e_native o = true -> e_dt o = true -> aware o = true -> e_canon o <> 0 ->
+  (e_fixed o = true -> exists off, e_zone o = fixed_zone off) ->
+  ~ wall_skipped (e_zone o) (sec (e_W o)) ->
+  (dt_sub self o = Ok i -> td_of_float_seconds (total_seconds (ep_inst self - ep_inst o)) = Ok (d_N (i_dur i))) /\
+  (dt_rsub self o = Ok i -> td_of_float_seconds (total_seconds (ep_inst o - ep_inst self)) = Ok (d_N (i_dur i))).
+Proof. exact sub_native_roundtrip. Qed.
+Print Assumptions sub_native_same_length.
+
+Theorem sub_native_same_length_exact_partial : float_roundtrip_exact_below_2_33 ->
+  forall self o i, e_dt self = true -> aware self = true ->
+  e_native o = true -> e_dt o = true -> aware o = true -> e_canon o <> 0 ->
+  (e_fixed o = true -> exists off, e_zone o = fixed_zone off) ->
+  ~ wall_skipped (e_zone o) (sec (e_W o)) -> Z.abs (ep_inst self - ep_inst o) < B33 ->
+  (dt_sub self o = Ok i -> d_N (i_dur i) = ep_inst self - ep_inst o) /\
+  (dt_rsub self o = Ok i -> d_N (i_dur i) = ep_inst o - ep_inst self).
+Proof. exact sub_native_exact_partial. Qed.
+Print Assumptions sub_native_same_length_exact_partial.
+
+Theorem sub_pendulum_operand_unchanged : forall self o, e_native o = false ->
+  dt_sub self o = interval_make o self false /\ dt_rsub self o = interval_make self o false.
+Proof. exact sub_pendulum. Qed.
+Print Assumptions sub_pendulum_operand_unchanged.
+
+(* a stdlib operand on a SKIPPED wall time is first moved by the gap (documented normalisation, C02): the measured instant is
+   wall - utcoffset(other fold), i.e. CPython's reading moved by exactly the gap *)
+Theorem native_operand_skipped_is_shifted : forall o o', e_native o = true -> e_dt o = true -> aware o = true -> e_canon o <> 0 ->
+  e_fixed o = false -> wf2_zone (e_zone o) = true -> wall_skipped (e_zone o) (sec (e_W o)) ->
+  normalise_operand o = Ok o' ->
+  ep_inst o' = e_W o - MEG * off_local (e_zone o) (sec (e_W o)) (negb (e_fold o)) /\
+  ep_inst o' - ep_inst o = (if e_fold o then 1 else -1) * MEG * (off_local (e_zone o) (sec (e_W o)) true - off_local (e_zone o) (sec (e_W o)) false).
+Proof. exact normalise_native_skipped. Qed.
+Print Assumptions native_operand_skipped_is_shifted.
+
+(* ---- closed float facts (kernel computation on the SpecFloat model) *)
+Theorem float_roundtrip_exact_borders :
+  Forall (fun N => Z.abs N < B33 /\ td_of_float_seconds (total_seconds N) = Ok N) rt_border_points.
+Proof. exact roundtrip_borders. Qed.
+Print Assumptions float_roundtrip_exact_borders.
+
+(* k units -1us / exact / +1us, both signs, k = 0..600, for seconds, minutes and hours *)
+Theorem float_div_trunc_unit_boundaries : forall unit k, (unit = 1 \/ unit = 60 \/ unit = 3600) -> 0 <= k <= 600 ->
+  forall d, (d = -1 \/ d = 0 \/ d = 1) ->
+  py_int_trunc (fdiv (total_seconds (k * unit * 1000000 + d)) (sf_of_Z unit)) = Ok (Z.quot (k * unit * 1000000 + d) (unit * 1000000)) /\
+  py_int_trunc (fdiv (total_seconds (- (k * unit * 1000000) - d)) (sf_of_Z unit)) = Ok (Z.quot (- (k * unit * 1000000) - d) (unit * 1000000)).
+Proof. exact div_trunc_small_k. Qed.
+Print Assumptions float_div_trunc_unit_boundaries.
+
+(* ... and for k around every power of two up to the top of the exact range *)
+Theorem float_div_trunc_pow2_boundaries : forall unit, (unit = 1 \/ unit = 60 \/ unit = 3600) ->
+  Forall (fun k => unit_boundaryb unit k = true /\ (k + 1) * unit * 1000000 <= B33) (pow2_ks unit).
+Proof. exact div_trunc_pow2. Qed.
+Print Assumptions float_div_trunc_pow2_boundaries.
+
+Theorem float_roundtrip_within_64_far_points :
+  Forall (fun N => exists M, td_of_float_seconds (total_seconds N) = Ok M /\ Z.abs (M - N) <= 64 /\ B33 <= Z.abs N <= SPAN_MAX)
+  [SPAN_MAX; - SPAN_MAX; SPAN_MAX - 1; 3652059 * 86400000000 - 1; 2 ^ 38 * 1000000 + 1; 2 ^ 38 * 1000000 - 1; - (2 ^ 37 * 1000000) - 31; 17999999999999999; B33; B33 + 1].
+Proof. exact within_64_far. Qed.
+Print Assumptions float_roundtrip_within_64_far_points.
+
+(* ---- the bound 2^33 s is sharp *)
+Theorem interval_length_exact_beyond_refuted :
+  exists i, interval_make (utc_ep 0) (utc_ep (B33 + 1)) false = Ok i /\
+            ep_inst (utc_ep (B33 + 1)) - ep_inst (utc_ep 0) = B33 + 1 /\ d_N (i_dur i) = B33 + 2.
+Proof. exact length_exact_beyond_refuted. Qed.
+Print Assumptions interval_length_exact_beyond_refuted.
+
+Theorem in_units_trunc_beyond_refuted :
+  exists i, interval_make (utc_ep 1000000) (utc_ep (1000000 + 17999999999999999)) false = Ok i /\
+            dur_in_hours (i_dur i) = Ok 5000000 /\ Z.quot 17999999999999999 3600000000 = 4999999 /\
+            dur_in_seconds (i_dur i) = Ok 18000000000 /\ Z.quot 17999999999999999 1000000 = 17999999999.
+Proof. exact in_units_beyond_refuted. Qed.
+Print Assumptions in_units_trunc_beyond_refuted.
